@@ -12,6 +12,7 @@
 -/
 import NiftyVerif.Lemmas.Coo
 import NiftyVerif.Lemmas.LinOps
+import NiftyVerif.Lemmas.LinOpsWf
 import NiftyVerif.Lemmas.CQ
 
 namespace NiftyVerif.C02
@@ -375,13 +376,8 @@ theorem regrid1_spec (q : Nat → Nat → K) (n N : Nat) (x : Nat → K) (j : Na
 
 /-- the regridding axis operator is well-formed for every non-empty axis (so `coo_adjoint` applies), including
     the axis of length 1 on which the unrepaired code indexed pixel −1 -/
-theorem regrid1_wf (q : Nat → Nat → K) (n N : Nat) (hn : 1 ≤ n) : (regrid1 q n N).wf = true := by
-  unfold regrid1; apply ofRows_wf
-  intro r _ cw hcw
-  simp only [List.mem_cons, List.mem_nil_iff, or_false] at hcw
-  rcases hcw with rfl | rfl
-  · simp only; omega
-  · simp only; omega
+theorem regrid1_wf (q : Nat → Nat → K) (n N : Nat) (hn : 1 ≤ n) : (regrid1 q n N).wf = true :=
+  regrid1_wf' q n N hn
 
 /-- one fibre of MatrixProductOperator: `y[i] = Σ_j m[i,j] x[j]` -/
 theorem matrixProduct1_spec (n : Nat) (m : List K) (x : Nat → K) (i : Nat) (hi : i < n) :
@@ -499,6 +495,60 @@ theorem transpose2_inverse_partial {cj : K → K} (hc1 : cj 1 = 1) (a b : Nat) (
       _ ≤ b * a := Nat.mul_le_mul_right _ hmod
       _ = a * b := Nat.mul_comm _ _
   · exact hi
+
+
+/-! ## Part 3 — the adjoint identity for each modelled operator class, every configuration
+    (`coo_adjoint` + well-formedness of the class model, Lemmas/LinOpsWf.lean) -/
+
+section part3
+variable {cj : K → K}
+
+/-- well-formedness of the class models, for every configuration (side conditions = what the constructors check) -/
+theorem models_wellformed :
+    (∀ flags : List Bool, (mask flags : Coo K).wf = true) ∧
+    (∀ n N central, n ≤ N → (pad1 n N central : Coo K).wf = true) ∧
+    (∀ sh d0 ns central, (∀ k, k < ns.length → sh.getD (d0 + k) 0 ≤ ns.getD k 0) → (padder sh d0 ns central : Coo K).wf = true) ∧
+    (∀ (q : Nat → Nat → K) sh d0 ns, (∀ k, k < ns.length → 1 ≤ sh.getD (d0 + k) 0) → (regridding q sh d0 ns).wf = true) ∧
+    (∀ pre post nbin dofdex, (∀ p, p < dofdex.length → dofdex.getD p 0 < nbin) → (distributor pre post nbin dofdex : Coo K).wf = true) ∧
+    (∀ pre n post idx, (∀ k, k < idx.length → idx.getD k 0 < n) → (extractAt pre n post idx : Coo K).wf = true) ∧
+    (∀ pre n post p, p < n → (fieldInserter pre n post p : Coo K).wf = true) ∧
+    (∀ shape index, inShape shape index = true → (valueInserter shape index : Coo K).wf = true) ∧
+    (∀ n (f : List K), (outerProduct n f).wf = true) ∧
+    (∀ (f : List K), (vdot cj f).wf = true) ∧
+    (∀ pre n post (m : List K), (matrixProduct pre n post m).wf = true) ∧
+    (∀ sizes spaces (d : List K), (diagonalOp sizes spaces d).wf = true) ∧
+    (∀ sh axes inv, (fftshift sh axes inv : Coo K).wf = true) ∧
+    (∀ n, (conjugation n : Coo K).wf = true ∧ (realizer n : Coo K).wf = true ∧ (imaginizer n : Coo K).wf = true) ∧
+    (∀ n r, (partialConj n r : Coo K).wf = true) :=
+  ⟨mask_wf, fun n N c h => pad1_wf n N h c, padder_wf, regridding_wf, distributor_wf, extractAt_wf, fieldInserter_wf,
+   valueInserter_wf, outerProduct_wf, vdot_wf cj, matrixProduct_wf, diagonalOp_wf,
+   fftshift_wf,
+   fun n => ⟨conjugation_wf n, realizer_wf n, imaginizer_wf n⟩, partialConj_wf⟩
+
+/-- hence `⟨y, A x⟩ = ⟨Aᴴ y, x⟩` for each of them; spelled out for the response-type operators -/
+theorem mask_adjoint (hc : IsConj cj) (flags : List Bool) (x y : Nat → K) :
+    inner cj (mask flags : Coo K).rows y (apply (mask flags) x) = inner cj flags.length (applyAdj cj (mask flags) y) x :=
+  Coo.coo_adjoint hc _ (mask_wf flags) x y
+
+theorem padder_adjoint (hc : IsConj cj) (sh : List Nat) (d0 : Nat) (ns : List Nat) (central : Bool)
+    (hge : ∀ k, k < ns.length → sh.getD (d0 + k) 0 ≤ ns.getD k 0) (x y : Nat → K) :
+    inner cj (padder sh d0 ns central : Coo K).rows y (apply (padder sh d0 ns central) x)
+      = inner cj (padder sh d0 ns central : Coo K).cols (applyAdj cj (padder sh d0 ns central) y) x :=
+  Coo.coo_adjoint hc _ (padder_wf sh d0 ns central hge) x y
+
+theorem regridding_adjoint (hc : IsConj cj) (q : Nat → Nat → K) (sh : List Nat) (d0 : Nat) (ns : List Nat)
+    (hpos : ∀ k, k < ns.length → 1 ≤ sh.getD (d0 + k) 0) (x y : Nat → K) :
+    inner cj (regridding q sh d0 ns).rows y (apply (regridding q sh d0 ns) x)
+      = inner cj (regridding q sh d0 ns).cols (applyAdj cj (regridding q sh d0 ns) y) x :=
+  Coo.coo_adjoint hc _ (regridding_wf q sh d0 ns hpos) x y
+
+theorem distributor_adjoint (hc : IsConj cj) (pre post nbin : Nat) (dofdex : List Nat)
+    (h : ∀ p, p < dofdex.length → dofdex.getD p 0 < nbin) (x y : Nat → K) :
+    inner cj (distributor pre post nbin dofdex : Coo K).rows y (apply (distributor pre post nbin dofdex) x)
+      = inner cj (distributor pre post nbin dofdex : Coo K).cols (applyAdj cj (distributor pre post nbin dofdex) y) x :=
+  Coo.coo_adjoint hc _ (distributor_wf pre post nbin dofdex h) x y
+
+end part3
 
 -- non-vacuity examples (concrete instances over the driver's scalars)
 example : (unflagged [true, false, false, true, false]) = [1, 2, 4] := by decide
